@@ -441,10 +441,7 @@ fn family(quick: bool) -> Vec<Prog> {
                 continue;
             }
             for init in 0..INITS.len() {
-                // thorough: every init for every program; quick: all inits for bodies up to length 1, rotated beyond
-                if quick && s.len() == 2 && init != (si + isr) % INITS.len() {
-                    continue;
-                }
+                // every init for bodies up to length 2 (both tiers); rotated for length 3
                 if !quick && s.len() == 3 && init != (si + isr) % INITS.len() {
                     continue;
                 }
@@ -586,8 +583,8 @@ pub fn run() {
     let outs = mc::par_ranges(fam.len(), fam.len(), |r| {
         let mut out = Out::default();
         for i in r {
-            // pairs: for every 4th program in quick, every program in thorough
-            let pairs = if quick { i % 4 == 0 } else { i % 2 == 0 };
+            // pairs: on every 4th program in quick, on every program in thorough
+            let pairs = if quick { i % 4 == 0 } else { true };
             check_prog(i, &fam[i], pairs, &mut out);
         }
         out
@@ -635,7 +632,7 @@ pub fn run() {
     ctx.set("distinct_nontrivial", all.runs - all.by_count.get(&0).cloned().unwrap_or(0));
     ctx.set("rule", "schedule = (program, multiset of trigger edges); deviation 0: no trigger; 1: one trigger before every clock edge 0..T of the run; 2: every ordered pair of trigger edges in a 120-edge window; every schedule is executed edge by edge on the real machine and compared with the uninterrupted twin; distinct_nontrivial = schedules in which the routine was entered at least once");
     ctx.set("exhaustive", true);
-    ctx.set("bounds", format!("{} programs (prologue + every body sequence of length <= {} over 25 instruction kinds x ISRs {{RETI, counter, MUL+CALL}}, + enable-bit-clear and EI-less variants); deviation bound 2 (pairs on {} of the programs)", fam.len(), if quick { 2 } else { 3 }, if quick { "1/4" } else { "1/2" }));
+    ctx.set("bounds", format!("{} programs (prologue + every body sequence of length <= {} over 25 instruction kinds x ISRs {{RETI, counter, MUL+CALL}}, + enable-bit-clear and EI-less variants); deviation bound 2 (pairs on {} of the programs)", fam.len(), if quick { 2 } else { 3 }, if quick { "1/4" } else { "all" }));
     ctx.set("schedules", all.runs);
     ctx.set("programs_checked", all.programs);
     ctx.set("programs_left_out_not_transparent_by_construction", all.ill_formed);
